@@ -44,7 +44,19 @@ void verif_entropy_plan(const unsigned char *benign, long special_call, const un
 void verif_entropy_clear(void) { plan_active = 0; }
 long verif_entropy_calls(void) { return plan_calls; }
 
+/* process-wide: answer every 16-byte request (the seed std's HashMap RandomState draws once per thread) with a
+ * constant, so that hash-map iteration order is a function of the work a thread has done, not of the run */
+static volatile int pin16 = 0;
+void verif_entropy_pin16(int on) { pin16 = on; }
+static volatile long pin16_served = 0;
+long verif_entropy_pin16_served(void) { return pin16_served; }
+
 ssize_t getrandom(void *buf, size_t len, unsigned int flags) {
+    if (pin16 && len == 16) {
+        memset(buf, 0x5a, 16);
+        __sync_fetch_and_add(&pin16_served, 1);
+        return 16;
+    }
     if (plan_active && len == 32) {
         long n = plan_calls++;
         memcpy(buf, (n == plan_special_call) ? plan_special : plan_benign, 32);
